@@ -7,14 +7,14 @@ PROP = "C08"
 def plan(ex, tier, first):
     import obl_trace as T
     unl = ("orphan unlink only under the pending_intents lock", T.p_unlink_under_intents,
-           "unlink_under_intents", "probe:replay_unlink_under_intents")
+           "orphan_unlink_under_intents", "gatedprobe:replay_orphan_unlink_probe")
     chk = ("an orphan is removed only if it is neither referenced nor protected by an intent at that moment",
            T.make_p_orphan_guarded(ex), "orphan_guarded", "probe:replay_orphan_guarded")
     ibr = ("a concurrent put protects its blob (intent) before the blob appears under cas/", T.make_p_intent_before_rename(ex),
            "intent_before_rename", "probe:replay_intent_before_rename")
     return [("delete_orphan", [unl, chk]), ("delete_orphans", [unl, chk]),
             ("quarantine_orphans", [("orphan quarantine only under the pending_intents lock", T.p_quarantine_under_intents,
-                                     "unlink_under_intents", "probe:replay_unlink_under_intents"), chk]),
+                                     "orphan_unlink_under_intents", "gatedprobe:replay_orphan_unlink_probe"), chk]),
             ("put.finish", [ibr])]
 
 
